@@ -25,9 +25,9 @@ func init() {
 		},
 		Families: []core.Family{
 			{Name: "cleaner-fn", N: core.TierN(1, 4), Solo: true, Run: c03CleanerFn},
-			{Name: "seq-model", N: core.TierN(2000, 30000), Batch: 100, Run: c03Seq},
-			{Name: "long-retention", N: core.TierN(120, 1200), Batch: 5, Run: c03Long},
-			{Name: "short-fixed-porcupine", N: core.TierN(800, 12000), Batch: 60, Run: c03Short},
+			{Name: "seq-model", N: core.TierN(2000, 120000), Batch: 100, Run: c03Seq},
+			{Name: "long-retention", N: core.TierN(120, 4800), Batch: 5, Run: c03Long},
+			{Name: "short-fixed-porcupine", N: core.TierN(800, 48000), Batch: 60, Run: c03Short},
 		},
 	})
 }
